@@ -8,7 +8,7 @@ using namespace tulz::rwp;
 #ifndef NW
 #define NW 3          /* worker threads (pre-started threads 0..NW-1); thread NW is the idle checker (C02) */
 #endif
-// program of worker i = macro Pi: bits 0-1 number of pairs (0..2), bit 2+j: pair j is a write, bit 4+j: pair j uses the guard class; BARRIER = C12 barrier size
+// program of worker i = macro Pi: bits 0-1 number of pairs (0..3), bit 2+j: pair j is a write, bit 5+j: pair j uses the guard class; BARRIER = C12 barrier size
 static Resource R;
 static int readers, writers;                       // C01 oracle
 static int finished;                               // workers that completed their program
@@ -80,8 +80,9 @@ template<int I, int K, bool G> static inline void pair() {
   }
 }
 template<int I, int P> static inline void prog() {
-  if constexpr ((P & 3) > 0) pair<I, (P >> 2) & 1, (P >> 4) & 1>();
-  if constexpr ((P & 3) > 1) pair<I, (P >> 3) & 1, (P >> 5) & 1>();
+  if constexpr ((P & 3) > 0) pair<I, (P >> 2) & 1, (P >> 5) & 1>();
+  if constexpr ((P & 3) > 1) pair<I, (P >> 3) & 1, (P >> 6) & 1>();
+  if constexpr ((P & 3) > 2) pair<I, (P >> 4) & 1, (P >> 7) & 1>();
   finished++;
 }
 #ifndef P0
